@@ -32,12 +32,14 @@ pub enum Imp {
   Text(String),
   /// import j from "<text>" with { type: "json" }   (C13 shortcut slice only)
   JsonAttr(String),
+  /// `// @ts-types="<types>"` on `import * as i from "<code>"`   (C13 shortcut slice only)
+  TsTypes(String, String),
 }
 
 impl Imp {
   pub fn text(&self) -> &str {
     match self {
-      Imp::Static(t) | Imp::Dynamic(t) | Imp::Text(t) | Imp::JsonAttr(t) => t,
+      Imp::Static(t) | Imp::Dynamic(t) | Imp::Text(t) | Imp::JsonAttr(t) | Imp::TsTypes(t, _) => t,
     }
   }
 }
@@ -106,6 +108,7 @@ pub fn render_imports(imports: &[Imp]) -> String {
       Imp::Dynamic(t) => s.push_str(&format!("const d{} = await import(\"{}\");\n", i, t)),
       Imp::Text(t) => s.push_str(&format!("import t{} from \"{}\" with {{ type: \"text\" }};\n", i, t)),
       Imp::JsonAttr(t) => s.push_str(&format!("import j{} from \"{}\" with {{ type: \"json\" }};\n", i, t)),
+      Imp::TsTypes(t, ty) => s.push_str(&format!("// @ts-types=\"{}\"\nimport * as i{} from \"{}\";\n", ty, i, t)),
     }
   }
   s.push_str("export const value: number = 1;\n");
